@@ -14,15 +14,17 @@
                                                                                GEnumProofs.sort_values_unique)
    values.go    ValueDeduplicatedSet (addedDeprecated reset on replacement)  dedup          (pinned code: dedup_orig)
    values.go    getPrimary                                                   get_primary
+   generate.go  validateCaseInsensitiveNames (-caseInsensitive)             gen (GenErr on names differing only by case)
    generate.go  extractTraitDescs (names/types from the lowest value's       first_columns, validate_counts
                 line, count validation)
    generate.go  per-line TraitInstances, sorted like the values              column_rows
    generate.go  processDuplicates (non-primary rows of every duplicated      drop_dup_rows  (pinned code: only for
                 value are dropped)                                            "unsafe" groups, drop_dup_rows_orig)
-   generate.go  validateParsableTraits (uniqueness of the value strings)     validate_parsable
+   generate.go  validateParsableTraits (one owner per parsable constant)     validate_parsable
    traits.go    TraitDescs sort by name; extractUnderlying                   sort_columns, extract_underlying
    enumTemplate.gotmpl  `gt (len $values) 15` -> slices.BinarySearch         t_binsearch
-   enumTemplate.gotmpl  Parse switch rows looked up by owning value          case_consts    (pinned code: index $j,
+   traits.go ParsableValuesOf: Parse switch rows by owning value, each      case_consts    (pinned code: index $j,
+                constant once                                                
                                                                               case_consts_orig / rows_in_range_orig)
    Go compiler  duplicate `case` constants / duplicate methods               build_ok
 
@@ -37,7 +39,8 @@
    :31-44   trait accessor (first matching case, else zero value)            sem_accessor
    :132-225 MarshalJSON/UnmarshalJSON                                        encode_json / decode_json
    :227-264 MarshalText/UnmarshalText                                        encode_text / decode_text
-   :266-355 MarshalYAML/UnmarshalYAML (strconv guards `err == nil`)          encode_yaml / decode_yaml
+   :266-355 MarshalYAML/UnmarshalYAML (strconv guards `err == nil`,          encode_yaml / decode_yaml
+            lossless-conversion check of the integer fallbacks)              (before it: decode_*_norc)
                                                                               (pinned code: decode_yaml_orig)
    Library behaviour (encoding/json, yaml.v3, strconv, unmarshalers of trait types) enters the
    decoders only through per-document view records measured by the harness.                     *)
@@ -283,16 +286,18 @@ Definition drop_dup_rows_gen (all_groups : bool) (vs : list gvalue) (cols : list
 Definition drop_dup_rows := drop_dup_rows_gen true.
 Definition drop_dup_rows_orig := drop_dup_rows_gen false.
 
-(* validateParsableTraits: one map value-string -> owner name over all parsable columns *)
-Definition parsable_instances (cols : list column) : list (string * string) :=
+(* validateParsableTraits: two parsable instances that are the same constant (identical default
+   type, equal value) must belong to the same enum value (fix C12-parsable-uniqueness-by-constant;
+   before it the value strings r_valstr were compared) *)
+Definition parsable_instances (cols : list column) : list (dyn * string) :=
   flat_map (fun c => if col_parsable c
-                     then map (fun r => (r_valstr r, g_name (r_owner r))) (col_rows c)
+                     then map (fun r => (cl_val (r_cell r), g_name (r_owner r))) (col_rows c)
                      else []) cols.
-Fixpoint validate_pairs (l : list (string * string)) : bool :=
+Fixpoint validate_pairs (l : list (dyn * string)) : bool :=
   match l with
   | [] => true
-  | (s, n) :: r =>
-      forallb (fun p => negb (String.eqb (fst p) s) || String.eqb (snd p) n) r && validate_pairs r
+  | (x, n) :: r =>
+      forallb (fun p => negb (dyn_eqb (fst p) x) || String.eqb (snd p) n) r && validate_pairs r
   end.
 Definition validate_parsable (cols : list column) : bool := validate_pairs (parsable_instances cols).
 
@@ -304,9 +309,18 @@ Definition sort_columns (cols : list column) : list column := isort col_less col
 Definition owned_cells (c : column) (v : gvalue) : list dyn :=
   map (fun r => cl_val (r_cell r))
       (filter (fun r => String.eqb (g_name (r_owner r)) (g_name v)) (col_rows c)).
+(* ParsableValuesOf lists a constant once per value: a cell identical (same default type, equal
+   value) to one already listed for the value is skipped (fix C12-parsable-equal-cells) *)
+Fixpoint dyn_dedup_from (seen : list dyn) (l : list dyn) : list dyn :=
+  match l with
+  | [] => []
+  | x :: r => if existsb (dyn_eqb x) seen then dyn_dedup_from seen r
+              else x :: dyn_dedup_from (x :: seen) r
+  end.
+Definition dyn_dedup (l : list dyn) : list dyn := dyn_dedup_from [] l.
 Definition case_consts (cols : list column) (v : gvalue) : list dyn :=
   DStr (g_name v) ::
-  flat_map (fun c => if col_parsable c then owned_cells c v else []) cols.
+  dyn_dedup (flat_map (fun c => if col_parsable c then owned_cells c v else []) cols).
 
 (* pinned template: `index $trait.Traits $j` — row j of the column, whoever owns it *)
 Fixpoint indexed_cells_orig (cols : list column) (j : nat) : option (list dyn) :=
@@ -363,7 +377,9 @@ Definition gen (d : defn) (o : opts) : outcome tables :=
   match vs with
   | [] => Unsupported
   | first :: rest =>
-      if o_notraits o then mk_tables d o vs []
+      (* validateCaseInsensitiveNames: names that differ only by case cannot be told apart *)
+      if o_ci o && negb (str_nodupb (map (fun v => to_lower (g_name v)) vs)) then GenErr
+      else if o_notraits o then mk_tables d o vs []
       else
         match first_columns d o first (g_cells first) with
         | Built cols0 =>
@@ -460,21 +476,30 @@ Definition native_attempts (cols : list column) (nat_view : list (string * optio
                      | _ => []
                      end) cols.
 
-Definition json_attempts (t : tables) (v : jview) : list dyn :=
+(* the integer fallbacks: the 64-bit reading x is converted to the trait's type; with the range
+   check (fix C05-numeric-trait-range-check, [rc] = true) only when the conversion is lossless —
+   `if tv := T(x); uint64(tv) == x { … Parse<T>(tv) … }` *)
+Definition int_attempts (rc : bool) (cols : list column) (x : Z) : list dyn :=
+  flat_map (fun c => if rc && negb (conv_int (ti_bkind (col_info c)) x =? x) then [] else [typed_int c x]) cols.
+
+Definition json_attempts_gen (rc : bool) (t : tables) (v : jview) : list dyn :=
   (match jv_string v with
    | Some s => DStr s :: map (fun c => typed c (PStr s)) (family t KString ti_json_own)
    | None => []
    end)
   ++ (match jv_u64 v with
-      | Some u => map (fun c => typed_int c u) (family t KUint64 ti_json_own)
+      | Some u => int_attempts rc (family t KUint64 ti_json_own) u
       | None => []
       end)
   ++ (match jv_i64 v with
-      | Some i => map (fun c => typed_int c i) (family t KInt64 ti_json_own)
+      | Some i => int_attempts rc (family t KInt64 ti_json_own) i
       | None => []
       end)
   ++ native_attempts (family_own t ti_json_own) (jv_native v).
+Definition json_attempts (t : tables) (v : jview) : list dyn := json_attempts_gen true t v.
 Definition decode_json (t : tables) (v : jview) : option Z := try_all t (json_attempts t v).
+(* before the range check: plain wrapping conversion *)
+Definition decode_json_norc (t : tables) (v : jview) : option Z := try_all t (json_attempts_gen false t v).
 
 Definition text_attempts (t : tables) (v : tview) : list dyn :=
   DStr (tv_text v) :: map (fun c => typed c (PStr (tv_text v))) (family t KString ti_text_own)
@@ -483,19 +508,22 @@ Definition decode_text (t : tables) (v : tview) : option Z := try_all t (text_at
 
 (* [fixed] = true: numeric fallbacks run when strconv succeeded (err == nil);
    false: the pinned guard err != nil — they run when it FAILED, with the zero result *)
-Definition yaml_attempts_gen (fixed : bool) (t : tables) (v : yview) : list dyn :=
+Definition yaml_attempts_gen2 (fixed rc : bool) (t : tables) (v : yview) : list dyn :=
   DStr (yv_value v) :: map (fun c => typed c (PStr (yv_value v))) (family t KString ti_yaml_own)
   ++ (match yv_u64 v with
-      | Some u => if fixed then map (fun c => typed_int c u) (family t KUint64 ti_yaml_own) else []
-      | None => if fixed then [] else map (fun c => typed_int c 0) (family t KUint64 ti_yaml_own)
+      | Some u => if fixed then int_attempts rc (family t KUint64 ti_yaml_own) u else []
+      | None => if fixed then [] else int_attempts rc (family t KUint64 ti_yaml_own) 0
       end)
   ++ (match yv_i64 v with
-      | Some i => if fixed then map (fun c => typed_int c i) (family t KInt64 ti_yaml_own) else []
-      | None => if fixed then [] else map (fun c => typed_int c 0) (family t KInt64 ti_yaml_own)
+      | Some i => if fixed then int_attempts rc (family t KInt64 ti_yaml_own) i else []
+      | None => if fixed then [] else int_attempts rc (family t KInt64 ti_yaml_own) 0
       end)
   ++ native_attempts (family_own t ti_yaml_own) (yv_native v).
+(* [fixed] = true: the current code (guards err == nil, range check); false: the pinned code *)
+Definition yaml_attempts_gen (fixed : bool) (t : tables) (v : yview) : list dyn := yaml_attempts_gen2 fixed fixed t v.
 Definition decode_yaml (t : tables) (v : yview) : option Z := try_all t (yaml_attempts_gen true t v).
 Definition decode_yaml_orig (t : tables) (v : yview) : option Z := try_all t (yaml_attempts_gen false t v).
+Definition decode_yaml_norc (t : tables) (v : yview) : option Z := try_all t (yaml_attempts_gen2 true false t v).
 
 (* encoders: all three emit String() *)
 Definition encode_json (t : tables) (e : Z) : string := quote (sem_string t e).
